@@ -9,7 +9,7 @@ CLAIMED = {
     },
     "C02": {
         "technique": "must-precede on MIR, match-arm table of the two run loops against a contract table on HIR, single-capture reachability",
-        "level": P + "Existing runs advance before a run is started with the same event in every entry point; both run loops remove a run exactly on Complete/CompleteMulti/Invalidate and keep it otherwise; after a capture no second capture of the same event is reachable. That the emitted match is the earliest is not decided.",
+        "level": P + "Existing runs advance before a run is started with the same event in every entry point; both run loops remove a run exactly on Complete/CompleteMulti/Invalidate and keep it otherwise; after a capture no second capture of the same event is reachable; both loops drop timed-out and invalidated runs before advancing them (sibling agreement). That the emitted match is the earliest is not decided.",
     },
     "C03": {
         "technique": "guard dominance / loop re-test analysis on MIR (R-GUARD)",
@@ -65,19 +65,19 @@ CLAIMED = {
     },
     "C19": {
         "technique": "state coverage of save/restore pairs (R-FIELDCOV) over the field access index with MIR provenance; variant coverage of the engine dispatchers",
-        "level": P + "For 14 save/restore pairs every runtime-state field must be read by the save function and restored from a checkpoint-derived value; every stateful RuntimeOp variant must be handled by create_checkpoint and restore_checkpoint. That restored values reproduce behaviour is not decided.",
+        "level": P + "For 14 save/restore pairs every runtime-state field must be read by the save function and restored from a checkpoint-derived value; every stateful RuntimeOp variant must be handled by create_checkpoint and restore_checkpoint; save / restore functions apply no reordering or dropping collection call. That restored values reproduce behaviour is not decided.",
     },
     "C20": {
         "technique": "inverse arm tables on HIR, lossy-conversion call scan, type-level reachability of f64 through the JSON codec, codec arm table",
-        "level": P + "The Value<->SerializableValue converters are a variant bijection; millisecond truncation sites on the save path and the non-finite-float / JSON combination are reported; serialize/deserialize cover every CheckpointFormat variant with matching codecs.",
+        "level": P + "The Value<->SerializableValue converters are a variant bijection; millisecond truncation sites on the save path and the non-finite-float / JSON combination are reported; serialize/deserialize cover every CheckpointFormat variant with matching codecs; serde field attributes on every type reachable from Checkpoint are symmetric (an omitted field is defaultable).",
     },
     "C21": {
         "technique": "must-pass-through / dominance on MIR of the atomic write, save-prune-id ordering and the fallback loop shape",
-        "level": P + "FileStore::put writes to a with_extension(\"tmp\") path and renames it into place on every successful path; save dominates prune and the id increment follows both; load_latest_checkpoint tries older ids in a loop. Crash interleavings inside the file system are not decided.",
+        "level": P + "FileStore::put writes to a with_extension(\"tmp\") path and renames it into place on every successful path; save dominates prune and the id increment follows both; load_latest_checkpoint tries older ids in a loop; prune deletes only the oldest ids of the ascending list. Crash interleavings inside the file system are not decided.",
     },
     "C22": {
         "technique": "dominance of persist after mutate in the API handlers, snapshot field coverage, put-before-index ordering on MIR",
-        "level": P + "Every handler that mutates a tenant's pipelines persists before replying; snapshot fields are filled from the live objects and read back on recovery (status included); the snapshot write precedes the index update and the snapshot delete precedes the index removal.",
+        "level": P + "Every handler that mutates a tenant's pipelines persists before replying; snapshot fields are filled from the live objects and read back on recovery (status included); the snapshot write precedes the index update and the snapshot delete precedes the index removal; recover() skips an index entry whose snapshot is missing; snapshot types round-trip through serde.",
     },
     "C23": {
         "technique": "route-builder coverage (whole-table install or arm table vs the loader) and provenance of the change-detection flag",
@@ -89,7 +89,7 @@ CLAIMED = {
     },
     "C28": {
         "technique": "key provenance (R-KEYED) of every TenantId argument in the tenant-scoped handlers; privacy of the tenant maps",
-        "level": P + "In each of the 12 tenant handlers the tenant acted upon is get_tenant_by_api_key(request key); cross-tenant accessors are not reachable from them; the tenant maps are private fields.",
+        "level": P + "In each of the 12 tenant handlers the tenant acted upon is get_tenant_by_api_key(request key); cross-tenant accessors are not reachable from them; the tenant maps are private fields; api keys are stored, tested and looked up under one normal form.",
     },
     "C29": {
         "technique": "warp route-chain flattening (R-ROUTE) on HIR, guard dominance inside the auth filters on MIR",
@@ -149,7 +149,7 @@ CLAIMED = {
     },
     "C32": {
         "technique": "commit-site re-validation (guard dominance) and paired-write analysis on MIR of the coordinator's commit functions",
-        "level": P + "Placements are written only for workers still registered at commit time, a migration commit re-validates the placement it replaces, and assigned_pipelines / pipelines_running change together. The interleavings themselves are not decided.",
+        "level": P + "Placements are written only for workers still registered at commit time, a migration commit re-validates the placement it replaces, assigned_pipelines / pipelines_running change together, and migration targets exclude the source worker. The interleavings themselves are not decided.",
     },
     "C36": {
         "technique": "durable-key agreement between writers and recovery (R-KEYS), write ordering and dropped-error scan on MIR (cfg persistent)",
